@@ -132,7 +132,13 @@ def gen(rng, tier, quarantine=(), total=False, inv="C03.embeddings"):
         ops.append({"op": "enter", "id": f"p{i}"})
     tl = 40 if tier == "quick" else 90
     pc = rng.choice([0.6, 0.75, 0.9])
-    for c in range(rng.randint(1, 3)):
+    failing = "no-failing-subscriber" not in quarantine and rng.random() < 0.1
+    if failing:
+        # a subscriber of one probe fails on its k-th event / record: the call it strikes is cut
+        # short; what the calls after it produce is reported exactly as before
+        ops.append({"op": "stage", "id": f"p{rng.randrange(nprobes)}", "kind": "whole", "cap": None,
+                    "raises": rng.randint(1, 5)})
+    for c in range(rng.randint(1, 3) + (2 if failing else 0)):
         r = rng.random()
         entry = first if r < 0.55 else ("S" if r < 0.7 else rng.choice(FNS + ["M"]))
         ops.append(
